@@ -390,7 +390,7 @@ def check_bingham(bing, z, gamma, max_concentration=np.inf, resid_tol=1e-3,
             gaps = np.abs(lk[:, None] - lk[None, :])[~np.eye(D, dtype=bool)]
             if gaps.min() < 1e-7:
                 continue          # duplicate-eigenvalue guard of the solver
-            if s_eig.min() < 1e-3:
+            if s_eig.min() < 3e-3:
                 # (nearly) rank-deficient scatter: the maximum-likelihood
                 # eigenvalue is unbounded (-1/s), stationarity is not
                 # decidable to a fixed tolerance
@@ -399,6 +399,18 @@ def check_bingham(bing, z, gamma, max_concentration=np.inf, resid_tol=1e-3,
                 continue
             grad = bingham_grad_log_norm(lk)
             r = float(np.max(np.abs(grad - s_eig)))
+            s_gap = float(np.min(np.diff(np.sort(s_eig))))
+            if s_gap < 1e-2:
+                # near-duplicate scatter eigenvalues: a separate violation
+                # class (known finding: the solver is inaccurate there)
+                if stats is not None:
+                    stats('probe:bingham_near_duplicate_scatter')
+                if not r <= resid_tol:
+                    return f'NEARDUP: Bingham eigenvalues of class {k} at {idx} do ' \
+                           f'not solve grad log c(lambda) = scatter eigenvalues ' \
+                           f'(residual {r:.3e}) for near-duplicate scatter ' \
+                           f'eigenvalues (gap {s_gap:.2e})'
+                continue
             note('bingham_stationarity', r, resid_tol)
             if not r <= resid_tol:
                 return f'Bingham eigenvalues of class {k} at {idx} do not solve ' \
